@@ -50,3 +50,9 @@ native('C01.collect_cids', ['C01'], 'proof', None, 'air-interpreter-data',
        'verif_native_collect_cids::data_verifier_new_is_total_on_dangling_trace_references',
        what='finite: each of the four store lookups of collect_peers_cids_from_trace (service result, its tetraplet, canon result, its tetraplet) '
             'with the referenced CID present or missing (16 combinations): DataVerifier::new returns, never panics (F5)')
+native('C01.raw_value', ['C01'], 'bounded', 'raw texts of length <= 2 over the alphabet {1 " [ ] x space} (43 texts)', 'air-interpreter-data',
+       'crates/air-lib/interpreter-data/src/raw_value.rs', 'raw_value.rs', 'verif_native_raw_value::get_value_is_total',
+       what='RawValue::get_value does not panic on a stored value that is not JSON (F4: it does -- known finding)')
+native('C24.lens', ['C24'], 'bounded', 'JSON values of depth <= 2 over scalars {null, 7, "s"} and keys {a, b} (about 60 values) x paths of length <= 3 over {[0],[1],[2],.a,.b,.c} (259 paths)',
+       'aquavm-air', 'air/src/execution_step/lambda_applier/applier.rs', 'lens.rs', 'verif_native_lens::lens_agrees_with_plain_json_navigation',
+       what='the real select_by_path_from_scalar / .length on the real JValue agree with plain serde_json navigation and fail with a catchable error exactly when it is impossible (checks the opaque JValue shim of unit lambda)')
